@@ -171,6 +171,17 @@ func genWorld(rng *core.Rng, i int, inEnvelope bool) world.WorldSpec {
 	}
 	s.DG7Size = core.Pick(rng, []int{16, 100, 250, 2000})
 	s.DG13Size = core.Pick(rng, []int{1, 2, 100, 125, 126, 127, 250, 251, 252, 253, 254, 255, 256, 1000})
+	if rng.Chance(1, 16) {
+		// files at the very top of what a 2-octet TLV length allows: total 65537..65539 bytes (offsets >= 65536 exist)
+		s.DG13Size = core.Pick(rng, []int{65529, 65530, 65531, 65531})
+		has := false
+		for _, d := range s.DGs {
+			has = has || d == 13
+		}
+		if !has {
+			s.DGs = append(s.DGs, 13)
+		}
+	}
 	if rng.Chance(1, 5) {
 		s.EACDGs = []int{3}
 		if rng.Bool() {
